@@ -8,6 +8,7 @@ import (
 	"encoding/json"
 	"fmt"
 	"github.com/robfig/soy"
+	"github.com/robfig/soy/data"
 	"github.com/robfig/soy/soyhtml"
 	"os"
 	"os/exec"
@@ -36,6 +37,8 @@ type C13Case struct {
 	BreakKind int          `json:"break_kind,omitempty"`
 	// DupGlobals: the same globals are added to the bundle twice
 	DupGlobals bool `json:"dup_globals,omitempty"`
+	// SplitGlobals: the globals are given as two maps, the same two at every compilation of the case
+	SplitGlobals bool `json:"split_globals,omitempty"`
 	// JSFail > 0: file (JSFail-1) gets a template that compiles but has no JavaScript translation
 	JSFail int `json:"js_fail,omitempty"`
 	// SyntaxErrors: files that get an (independent) syntax error each. With two or more, the error text
@@ -72,6 +75,8 @@ func placeholderNames(m *ast.MsgNode) string {
 	}
 	return strings.Join(names, phSep)
 }
+
+var c13TwoMaps map[uint64]*[2]data.Map
 
 // phSep separates the entries of placeholderNames (a character no template text contains).
 const phSep = "\x1f"
@@ -183,6 +188,21 @@ func artefact2(c C13Case, order []int) (art string, imports int, suffixed bool, 
 			return "accept (globals defined twice)", 0, false, nil
 		}
 		return "reject: " + derr.Error(), 0, false, nil
+	}
+	if c.SplitGlobals && len(c.Prog.Prog.Globals) > 0 {
+		// the globals as two maps that the application keeps and gives to every compilation of this case
+		// (application-wide ones and the ones of this deployment)
+		key := hashCase(c)
+		two := c13TwoMaps[key]
+		if two == nil {
+			two = &[2]data.Map{{}, {}}
+			for i, k := range ref.SortedKeys(c.Prog.Prog.Globals) {
+				two[i%2][k] = toDataMap(map[string]ref.Value{k: c.Prog.Prog.Globals[k]})[k]
+			}
+			c13TwoMaps = map[uint64]*[2]data.Map{key: two} // (the current case only)
+		}
+		globalsInTwoMaps = two
+		defer func() { globalsInTwoMaps = nil }()
 	}
 	cb, err, pn := compileBundle(on, os_, c.Prog.Prog.Globals)
 	if c13Dir != "" {
@@ -492,6 +512,7 @@ func genC13(t *rapid.T) C13Case {
 		c.BreakKind = rapid.IntRange(0, 10).Draw(t, "breakKind")
 	}
 	c.DupGlobals = rapid.IntRange(0, 19).Draw(t, "dupGlobals") == 0
+	c.SplitGlobals = rapid.IntRange(0, 3).Draw(t, "splitGlobals") == 2
 	if rapid.IntRange(0, 5).Draw(t, "jsFail") == 0 {
 		c.JSFail = 1 + rapid.IntRange(0, len(pc.Prog.Files)-1).Draw(t, "jsFailFile")
 	}
